@@ -49,7 +49,7 @@ def unwrap(x):
 
 class ItemRec:
     __slots__ = ("item", "iid", "put_t", "put_seq", "delay", "ready_t", "ready_key", "status",
-                 "token", "ever_reserved", "putter", "first_ready_eoi", "tok_grant_t", "in_stall")
+                 "token", "ever_reserved", "putter", "first_ready_eoi", "tok_grant_t", "in_stall", "tok_grant_step")
 
     def __init__(self, item, put_t, put_seq, delay, putter):
         self.item = item
@@ -65,12 +65,13 @@ class ItemRec:
         self.putter = putter
         self.first_ready_eoi = None
         self.tok_grant_t = None
+        self.tok_grant_step = None
         self.in_stall = False
 
 
 class TokRec:
     __slots__ = ("tok", "sh", "side", "prio", "seq", "owner", "state", "t_issue", "t_grant",
-                 "gseq", "filter", "bound", "via", "checked", "issue_step", "client")
+                 "gseq", "filter", "bound", "via", "checked", "issue_step", "client", "g_step")
 
     def __init__(self, tok, sh, side, prio, seq, owner, t, filt, step):
         self.tok = tok
@@ -89,6 +90,7 @@ class TokRec:
         self.checked = False
         self.issue_step = step
         self.client = None
+        self.g_step = None
 
     def key(self):
         if self.sh.has_prio:
@@ -214,6 +216,8 @@ class ShadowStore:
         mon = self.mon
         rec.state = "granted"
         rec.t_grant = self.now()
+        mon.tick += 1
+        rec.g_step = mon.tick
         mon.gseq += 1
         rec.gseq = mon.gseq
         side = rec.side
@@ -366,9 +370,11 @@ class ShadowStore:
             ir = ItemRec(item, self.now(), self.put_seq, info.get("delay"), rec.owner)
             self.delays_log.append(info.get("delay"))
             ir.tok_grant_t = rec.t_grant
+            ir.tok_grant_step = rec.g_step
             if id(item) in self.held:
                 self.viol("C02", "duplicate_put", f"{self.kind}:same-object-put-twice", {"item": ir.iid})
             self.held[id(item)] = ir
+            self.returned.discard(id(item))
             self.keepalive.append(item)
             self._occ_update()
             self.puts_log.append((self.now(), ir.iid))
